@@ -72,14 +72,23 @@ Fixpoint parse_items (s : list ascii) (cnt : option nat) : option (list item) :=
       end
   end.
 
+(** native mode on this host (LP64, little-endian): C long is 8 bytes *)
+Definition native_item (it : item) : item :=
+  match icode it with
+  | Cl => mkItem (icnt it) Cq
+  | CL => mkItem (icnt it) CQ
+  | _ => it
+  end.
+Definition mk_native (its : list item) : fmt := mkFmt LE true (map native_item its).
+
 Definition parse_fmt (s : string) : option fmt :=
   match list_ascii_of_string s with
   | "<"%char :: r => option_map (mkFmt LE false) (parse_items r None)
   | ">"%char :: r => option_map (mkFmt BE false) (parse_items r None)
   | "!"%char :: r => option_map (mkFmt BE false) (parse_items r None)
   | "="%char :: r => option_map (mkFmt LE false) (parse_items r None)
-  | "@"%char :: r => option_map (mkFmt LE true) (parse_items r None)
-  | l => option_map (mkFmt LE true) (parse_items l None)
+  | "@"%char :: r => option_map mk_native (parse_items r None)
+  | l => option_map mk_native (parse_items l None)
   end.
 
 Definition code_size (c : code) : nat :=
